@@ -372,7 +372,8 @@ ADDED4 = {
 ADDED5 = {
     "C01": " Round 5: wildcards added to a finished class (add_class_trait), one-character 'p*' deferrals.",
     "C02": " Round 5: the handler population changed during a dispatch (named / name-less / observe routes), comparison mode switched "
-           "after the definition was made, listener objects registered with add_trait_listener.",
+           "after the definition was made, listener objects registered with add_trait_listener; SOLVER-DECIDED: the compiled comparison-mode "
+           "setter / getter on an arbitrary 32-bit flag word (bit-vector) and an unbounded integer mode.",
     "C03": " Round 5: classes with virtual subclasses (ABC.register, __subclasshook__, collections.abc.Sized), stand-in values in every "
            "Adapt configuration.",
     "C04": " Round 5: defaults of every container trait (also Trait(<default>, List(...))), falsy-constant inner traits, falsy owners.",
